@@ -116,8 +116,12 @@ pub fn run_case(c: &Case, st: &mut Stats) -> Result<(), Failure> {
     let sb = Sandbox::new();
     let acp = sb.autocorrect_file();
     let mut clock: u64 = 1_000_000;
+    // every fifth document (by its content) is written the way some editors write UTF-8: with a byte order mark in
+    // front.  Whether the engine can read such a file or not, it must decide the same way at creation and at reload.
     let write_ac = |doc: &BTreeMap<String, String>, clock: &mut u64| {
-        std::fs::write(&acp, serde_json::to_string(doc).unwrap()).expect("write autocorrect");
+        let text = serde_json::to_string(doc).unwrap();
+        let bytes: Vec<u8> = if hash_of(&text) % 5 == 0 { [&[0xEF, 0xBB, 0xBF][..], text.as_bytes()].concat() } else { text.into_bytes() };
+        std::fs::write(&acp, bytes).expect("write autocorrect");
         *clock += 10;
         let f = std::fs::File::options().write(true).open(&acp).expect("open autocorrect");
         f.set_modified(UNIX_EPOCH + Duration::from_secs(*clock)).expect("set mtime");
